@@ -70,6 +70,10 @@ func (p *stubTimestamp) OnTerminate() {
 	p.impl.OnTerminate()
 }
 func (p *stubTimestamp) Receive(msg *net.Message, from bus.Channel) error {
+	// only call and post messages run a method
+	if msg.Header.Type != net.Call && msg.Header.Type != net.Post {
+		return nil
+	}
 	// action dispatch
 	switch msg.Header.Action {
 	case 100:
